@@ -636,7 +636,167 @@ impl<'a> Gen<'a> {
             }
             p.sql()
         };
-        let shape = self.rng.usize(15);
+        let shape = self.rng.usize(22);
+        if shape >= 15 {
+            // shapes whose two plans (in-memory statistics vs on-disk statistics, disk-only rules)
+            // differ in more than the join algorithm
+            let nonkey = |d: &TableDef| -> Vec<Col> {
+                d.cols
+                    .iter()
+                    .enumerate()
+                    .filter(|(i, _)| Some(*i) != d.pk)
+                    .map(|(_, c)| c.clone())
+                    .collect()
+            };
+            let c = self.rng.usize(9) as i64 - 1;
+            match shape {
+                15 => {
+                    // ORDER BY a key that is not in the select list (the scan may prune it);
+                    // the sequence is determined when the keys are distinct
+                    let rows = &self.model.tables[&a.name].1;
+                    let ki = a.pk.unwrap();
+                    let mut ks: Vec<&Val> = rows.iter().map(|r| &r[ki]).collect();
+                    let n = ks.len();
+                    ks.sort();
+                    ks.dedup();
+                    let nk = nonkey(&a);
+                    if ks.len() == n && !nk.is_empty() {
+                        let v = nk[self.rng.usize(nk.len())].name.clone();
+                        let desc = self.rng.chance(1, 4);
+                        let w = range(self, &a, "");
+                        let sql = format!(
+                            "SELECT {v} FROM {}{w} ORDER BY {}{}",
+                            a.name,
+                            ak.name,
+                            if desc { " DESC" } else { "" }
+                        );
+                        return Some(Stmt::RawOrdered { sql, keys: vec![(0, desc)] });
+                    }
+                }
+                16 => {
+                    // outer join whose ON clause has a one-sided conjunct (must not become a
+                    // filter of the preserved side)
+                    let jt = *self.rng.pick(&["LEFT JOIN", "LEFT JOIN", "FULL JOIN", "RIGHT JOIN"]);
+                    let (side, d) = if self.rng.chance(2, 3) { ("x", &a) } else { ("y", &b) };
+                    let ic = int_of(d).or_else(|| {
+                        let k = &d.cols[d.pk.unwrap()];
+                        int_ty(k.ty).then(|| k.name.clone())
+                    });
+                    if let Some(ic) = ic {
+                        let on = if self.rng.chance(3, 4) {
+                            format!("x.{} = y.{} AND {side}.{ic} < {c}", ak.name, bk.name)
+                        } else {
+                            format!("{side}.{ic} < {c}")
+                        };
+                        let xa = other(self, &a);
+                        return Some(Stmt::Raw(format!(
+                            "SELECT x.{}, x.{xa}, y.{} FROM {} x {jt} {} y ON {on}",
+                            ak.name, bk.name, a.name, b.name
+                        )));
+                    }
+                }
+                17 => {
+                    // EXISTS / NOT EXISTS whose subquery has a conjunct on the outer row only
+                    let ic = int_of(&a).or_else(|| int_ty(ak.ty).then(|| ak.name.clone()));
+                    if let Some(ic) = ic {
+                        let neg = if self.rng.chance(1, 2) { "NOT " } else { "" };
+                        return Some(Stmt::Raw(format!(
+                            "SELECT x.{}, x.{ic} FROM {} x WHERE {neg}EXISTS (SELECT 1 FROM {} y WHERE y.{} = x.{} AND x.{ic} < {c})",
+                            ak.name, a.name, b.name, bk.name, ak.name
+                        )));
+                    }
+                }
+                18 => {
+                    // semi / anti join on nullable columns (NULL matches nothing)
+                    let na = nonkey(&a);
+                    let mut pairs = vec![];
+                    for x in &na {
+                        for d in [&a, &b] {
+                            for y in nonkey(d) {
+                                if y.ty == x.ty && x.ty != Ty::Bool {
+                                    pairs.push((x.name.clone(), d.name.clone(), y.name.clone()));
+                                }
+                            }
+                        }
+                    }
+                    if !pairs.is_empty() {
+                        let (xc, t2, yc) = pairs[self.rng.usize(pairs.len())].clone();
+                        let neg = if self.rng.chance(1, 2) { "NOT " } else { "" };
+                        let sql = if self.rng.chance(1, 2) {
+                            format!(
+                                "SELECT x.{}, x.{xc} FROM {} x WHERE {neg}EXISTS (SELECT 1 FROM {t2} y WHERE y.{yc} = x.{xc})",
+                                ak.name, a.name
+                            )
+                        } else {
+                            format!(
+                                "SELECT {}, {xc} FROM {} WHERE {xc} {neg}IN (SELECT {yc} FROM {t2})",
+                                ak.name, a.name
+                            )
+                        };
+                        return Some(Stmt::Raw(sql));
+                    }
+                }
+                19 => {
+                    // aggregates whose partial results are combined per chunk
+                    let nums: Vec<Col> = a
+                        .cols
+                        .iter()
+                        .filter(|c| matches!(c.ty, Ty::SmallInt | Ty::Int | Ty::BigInt | Ty::Decimal))
+                        .cloned()
+                        .collect();
+                    if !nums.is_empty() {
+                        let nc = nums[self.rng.usize(nums.len())].clone();
+                        let n = nc.name.clone();
+                        // (no partial sum may overflow in any order: whether an intermediate
+                        // overflow is noticed depends on the build, not on the engine)
+                        let ci = a.col_idx(&n).unwrap();
+                        let total: i128 = self.model.tables[&a.name]
+                            .1
+                            .iter()
+                            .map(|r| match &r[ci] {
+                                Val::Int(v) => (*v as i128).abs(),
+                                _ => 0,
+                            })
+                            .sum();
+                        let cap: i128 = match nc.ty {
+                            Ty::SmallInt => i16::MAX as i128,
+                            Ty::Int => i32::MAX as i128,
+                            _ => i64::MAX as i128,
+                        };
+                        let w = range(self, &a, "");
+                        let sum = if total <= cap { format!("sum({n}), ") } else { String::new() };
+                        return Some(Stmt::Raw(format!(
+                            "SELECT {sum}count({n}), min({n}), max({n}) FROM {}{w}",
+                            a.name
+                        )));
+                    }
+                }
+                20 => {
+                    // a bare BOOLEAN column next to a key range (the range goes into the scan,
+                    // the column stays behind as the whole filter condition)
+                    let bs: Vec<Col> = a.cols.iter().filter(|c| c.ty == Ty::Bool).cloned().collect();
+                    if !bs.is_empty() && int_ty(ak.ty) {
+                        let bc = bs[self.rng.usize(bs.len())].name.clone();
+                        let not = if self.rng.chance(1, 4) { "NOT " } else { "" };
+                        return Some(Stmt::Raw(format!(
+                            "SELECT * FROM {} WHERE {not}{bc} AND {} < {c}",
+                            a.name, ak.name
+                        )));
+                    }
+                }
+                _ => {
+                    // count over a join whose inputs need no columns at all
+                    let ic = int_of(&a).or_else(|| int_ty(ak.ty).then(|| ak.name.clone()));
+                    if let Some(ic) = ic {
+                        return Some(Stmt::Raw(format!(
+                            "SELECT count(*) FROM {} x, {} y WHERE x.{ic} = {c}",
+                            a.name, b.name
+                        )));
+                    }
+                }
+            }
+            return None;
+        }
         if shape >= 13 {
             // aggregation grouped by the key, ordered by it, possibly cut by LIMIT (group keys
             // are unique, so the cut is well defined): the on-disk plan drops the sort
@@ -1288,6 +1448,60 @@ impl<'a> Gen<'a> {
             }
         }
         steps.push(Step::Reopen);
+        steps
+    }
+
+    /// One table of more than a thousand rows (more than one processing window of the
+    /// executors, many blocks), then ORDER BY / LIMIT / OFFSET queries (or key-range queries)
+    /// whose cut points lie anywhere in it.
+    pub fn big_scenario(&mut self, range: bool) -> Vec<Step> {
+        let mut steps = vec![];
+        let apply = |g: &mut Self, s: Stmt, steps: &mut Vec<Step>| {
+            if !matches!(g.model.expect(&s), Expect::Err(_)) {
+                g.model.apply(&s);
+            }
+            steps.push(Step::Stmt(s));
+        };
+        let mut d = self.gen_table();
+        if range && d.pk.is_none() {
+            d.pk = Some(0);
+            d.cols[0].nullable = false;
+        }
+        let t = d.name.clone();
+        apply(self, Stmt::CreateTable(d.clone()), &mut steps);
+        self.prof.max_rows_per_insert = 40;
+        for _ in 0..3 {
+            let s = self.gen_insert(&t);
+            apply(self, s, &mut steps);
+        }
+        let mut n = 0;
+        while self.model.tables[&t].1.len() < 1100 && n < 10 {
+            let s = Stmt::InsertSelect { table: t.clone(), from: t.clone(), pred: Pred::default() };
+            apply(self, s, &mut steps);
+            n += 1;
+        }
+        if self.rng.chance(1, 2) {
+            steps.push(Step::Advance { ms: 1500 });
+        }
+        for _ in 0..(6 + self.rng.usize(6)) {
+            let q = if range {
+                let mut q = Query::star(&t);
+                q.pred = self.gen_range_pred(&d);
+                q.cols = self.gen_projection(&d);
+                q
+            } else {
+                self.gen_order_query(&t)
+            };
+            steps.push(Step::Stmt(Stmt::Select(q)));
+            if self.rng.chance(1, 5) {
+                let s = self.gen_insert(&t);
+                apply(self, s, &mut steps);
+            }
+            if self.rng.chance(1, 8) {
+                let pred = self.gen_pred(&d, true);
+                apply(self, Stmt::Delete { table: t.clone(), pred }, &mut steps);
+            }
+        }
         steps
     }
 
